@@ -56,6 +56,60 @@ pub fn minimise(ctx: &Ctx, case: &Case, class: &str, budget: usize) -> (Case, us
             false
         }
     };
+    // bake storage corruptions of text inputs into the text, then delta-debug the text by lines:
+    // the replay file then shows a small literal input instead of a large base plus edit script
+    for ii in 0..best.inputs.len() {
+        let baked: Option<String> = match (&best.inputs[ii].base, best.inputs[ii].corrupt.is_empty()) {
+            (crate::case::Base::Text(t), false) => {
+                let mut d = t.clone().into_bytes();
+                for op in &best.inputs[ii].corrupt {
+                    op.apply(&mut d, &ctx.corpus);
+                }
+                String::from_utf8(d).ok()
+            }
+            _ => None,
+        };
+        if let Some(t) = baked {
+            let mut c = best.clone();
+            c.inputs[ii].base = crate::case::Base::Text(t);
+            c.inputs[ii].corrupt.clear();
+            try_candidate(&mut best, c, &mut evals);
+        }
+    }
+    for ii in 0..best.inputs.len() {
+        if !best.inputs[ii].corrupt.is_empty() {
+            continue;
+        }
+        let text = match &best.inputs[ii].base {
+            crate::case::Base::Text(t) => t.clone(),
+            _ => continue,
+        };
+        let mut lines: Vec<String> = text.split_inclusive('\n').map(String::from).collect();
+        let mut chunk = (lines.len() / 2).max(1);
+        while chunk >= 1 && evals < budget && lines.len() > 1 {
+            let mut i = 0;
+            let mut removed_any = false;
+            while i < lines.len() && evals < budget {
+                let end = (i + chunk).min(lines.len());
+                let mut cand_lines = lines.clone();
+                cand_lines.drain(i..end);
+                let mut c = best.clone();
+                c.inputs[ii].base = crate::case::Base::Text(cand_lines.concat());
+                if try_candidate(&mut best, c, &mut evals) {
+                    lines = cand_lines;
+                    removed_any = true;
+                } else {
+                    i = end;
+                }
+            }
+            if chunk == 1 && !removed_any {
+                break;
+            }
+            if !removed_any {
+                chunk /= 2;
+            }
+        }
+    }
     let mut progress = true;
     while progress && evals < budget {
         progress = false;
@@ -218,7 +272,7 @@ pub fn finish(ctx: &Ctx, mut res: CheckResult, wall_s: f64) -> i32 {
             minimised_n += 1;
             // the case must reproduce in isolation first
             if reproduces(ctx, &f.case, class) {
-                let (c, e) = minimise(ctx, &f.case, class, 150);
+                let (c, e) = minimise(ctx, &f.case, class, 250);
                 (c, e, true)
             } else {
                 res.harness_errors.push(format!("finding did not reproduce in isolation: {} {}", class, f.case.name));
